@@ -22,7 +22,7 @@ BACKENDS = ["jaxley.stone", "jaxley.thomas", "jax.sparse"]
 
 
 @st.composite
-def channel_placement(draw, N, mechs=("HH", "Leak", "Na", "K", "Km", "CaL"), max_ch=3, allow_rename=True,
+def channel_placement(draw, N, mechs=("HH", "Leak", "Na", "K", "Km", "CaL", "CaT"), max_ch=3, allow_rename=True,
                       per_row_params=True):
     out, used = [], set()
     for _ in range(draw(st.integers(1, max_ch))):
